@@ -1,5 +1,6 @@
 """C08 -- with proxy authentication on, unauthenticated requests reach nothing (netmc)."""
 import base64
+import os
 import itertools
 from .. import netmc, netcheck, oracles, plugins
 from ..netmc import Scenario, HttpOrigin, RawOrigin
@@ -8,7 +9,7 @@ PROP = 'C08'
 OK = b'HTTP/1.1 200 OK\r\nContent-Length: 2\r\n\r\nok'
 ACK = b'HTTP/1.1 200 Connection established\r\n\r\n'
 REQUEST_HOOKS = {'before_upstream_connection', 'handle_client_request', 'resolve_dns', 'handle_client_data',
-                 'handle_upstream_chunk'}
+                 'handle_upstream_chunk', 'do_intercept'}
 
 
 def b64(s):
@@ -130,6 +131,30 @@ def scenarios(tier):
                                   features={'method': rname, 'variant': label.split('/')[0], 'expect': exp,
                                             'recorder': bool(withrec), 'auth_plugin_listed': withrec == 'listed', 'packing': pname, 'second': str(second), 'disable_headers': bool(dis),
                                             '_cred': cred, '_label': label}))
+    # TLS interception configured: whether to intercept a CONNECT is ALSO a question put to every user plugin
+    # (do_intercept) -- not before the credentials have been checked
+    from .. import pki
+    d = pki.ensure()
+    cadir = os.path.join(netmc.scratch_dir(), 'c08-certs')
+    os.makedirs(cadir, exist_ok=True)
+    tls = ['--ca-key-file', d + '/ca-key.pem', '--ca-cert-file', d + '/ca-cert.pem', '--ca-signing-key-file', d + '/ca-signing-key.pem',
+           '--ca-cert-dir', cadir, '--ca-file', d + '/oca-cert.pem']
+    mk = requests()[2][1]
+    for cred in creds[:1]:
+        for (label, lines, exp) in header_variants(cred, tier):
+            if exp != 'reject':
+                continue
+            raw = mk(lines)
+            for pname, pieces in (('whole', [raw]), ('cut', [raw[:len(raw) // 2], raw[len(raw) // 2:]])):
+                out.append(Scenario(
+                    '%s/rec+tls/CONNECT/%s/%s' % (cred.decode(), label, pname),
+                    ['--threadless', '--basic-auth', cred.decode()] + tls,
+                    flags_opts={'plugins': [plugins.recorder('after', {'do_intercept': ('pass', None)})]}, mode='local',
+                    clients=[dict(script=[('send', p) for p in pieces] + [('wait_idle',)])], origins=origins,
+                    dns={'h.test': '10.0.0.1'}, kinds='', horizon=1500,
+                    features={'method': 'CONNECT', 'variant': label.split('/')[0], 'expect': exp, 'recorder': True,
+                              'auth_plugin_listed': False, 'packing': pname, 'second': 'None', 'disable_headers': False,
+                              'tls_interception': True, '_cred': cred, '_label': label}))
     return out
 
 
